@@ -24,10 +24,10 @@
  * sets of Vgroups/Vdatas, lone sets, iteration order) is compared with every API answer.
  */
 #ifndef VGP_C
-#define VGP_C "/repo/hdf/src/vgp.c"
+#define VGP_C "hdf/src/vgp.c" /* resolved through -I<REPO> */
 #endif
 #ifndef VG_C
-#define VG_C "/repo/hdf/src/vg.c"
+#define VG_C "hdf/src/vg.c"
 #endif
 #include VGP_C
 #include VG_C
